@@ -37,11 +37,13 @@ Profile GetProfile(const std::string& name, bool thorough) {
     p.pm_cmd_fail = 40; p.pm_editor = 0; p.w_manifest_edit = 1; p.pm_tty = 100; p.w_inflate_log = 0;
     p.gen.features &= ~F_REGEN;
     p.subset_then_touch = true;
+    p.backdating_cmds = true;
   } else if (name == "C01" || name == "C02" || name == "C04") {
     p.pm_cmd_fail = 40; p.pm_interrupt = 60; p.pm_crash = 40; p.pm_editor = 80;
     p.w_manifest_edit = 1; p.pm_tty = 150;
     p.subset_then_touch = true;
     p.generator_restats_log = true;
+    p.backdating_cmds = true;
     if (name == "C04") p.prune_empty_dirs = true;
   } else if (name == "C05" || name == "C05R") {
     p.pm_cmd_fail = 220; p.pm_cmd_signal = 60; p.w_edit = 4; p.pm_io_error = 0;
@@ -522,6 +524,7 @@ struct Driver {
       std::string line = e.substr(pos, nl == std::string::npos ? std::string::npos : nl - pos);
       pos += 7;
       if (line.find("ninja: warning: premature end of file; recovering") == 0) continue;
+      if (line.find("names itself as an input; ignoring") != std::string::npos) continue;   // the manifest's own oddity, every time
       if (line.find("starting over") != std::string::npos) continue;
       if (line.find("ninja explain:") == 0) continue;
       if (line.find("ninja: error") == 0 || line.find("ninja: warning") == 0 || line.find("ninja: fatal") == 0)
